@@ -7,6 +7,7 @@ import KlogV.Props.Rx.Values
 import KlogV.Props.Rx.Model
 import KlogV.Props.GoSrc
 import KlogV.Props.GoCal
+import KlogV.Props.GoSrcParse
 namespace KlogV.C16
 
 /-! ### Times -/
